@@ -316,6 +316,7 @@ theorem hasTok_step {s : St} {op : Op} {x t : Nat} (h : hasTok (step s op) x t) 
         exact Or.inr ⟨ht, by simp [hpc, doC]⟩
     · exact Or.inl h
   | exhaust => exact Or.inl h
+  | setWaker w => exact Or.inl h
 
 theorem counter_mono (s : St) (op : Op) : s.counter ≤ (step s op).counter := by
   cases op with
@@ -343,6 +344,7 @@ theorem counter_mono (s : St) (op : Op) : s.counter ≤ (step s op).counter := b
     · rename_i r _; cases r <;> simp [doC]
     · simp
   | exhaust => simp [step]
+  | setWaker w => simp [step]
 
 
 theorem tickLt_step {s : St} (op : Op) (h : TickLt s) : TickLt (step s op) := by
@@ -438,6 +440,7 @@ theorem noneQ_step {s : St} (op : Op) (h : NoneQ s) : NoneQ (step s op) := by
       simp only [step, doRecv, hp] at hpc ⊢
       cases r <;> simp [doC] at hpc
   | exhaust => exact h t k hpc
+  | setWaker w => exact h t k hpc
 
 theorem noneQ_init : NoneQ ({} : St) := by intro t k h; simp at h
 
@@ -482,6 +485,7 @@ theorem hasTok_step_old {s : St} {op : Op} {x t : Nat} (hl : live s x) (hnd : de
       · exact h
       · exact absurd (by simp [delivers, hp]) hnd
   | exhaust => exact h
+  | setWaker w => exact h
 
 theorem owed_step {s : St} {op : Op} {i : Nat} (hinv : Inv s) (hnq : NoneQ s) (ho : owed s i)
     (hnd : delivers s op ≠ some i) (hnr : op ≠ .remove i) : owed (step s op) i := by
@@ -622,6 +626,7 @@ theorem owed_step {s : St} {op : Op} {i : Nat} (hinv : Inv s) (hnq : NoneQ s) (h
           · simp [hp] at hq
         · exact ⟨by simpa [live, upd, hik] using hl, Or.inl (hq' hik)⟩
   | exhaust => exact ⟨hl, hq⟩
+  | setWaker w => exact ⟨hl, hq⟩
 
 
 /-- an owed stream that is not in hand has its (only) token in the heap -/
@@ -696,6 +701,7 @@ theorem behind_step {s : St} {op : Op} {i j : Nat} (hinv : Inv s) (htl : TickLt 
         simp only [step, doRecv, hp]
         cases r <;> simp [doC, handKey]
     | exhaust => simpa [step] using hhand
+    | setWaker w => simpa [step] using hhand
   · -- tickets stay ordered
     intro ti tj hi hj
     have hi' := hasTok_step_old ho.1 hnd hi
